@@ -1,7 +1,7 @@
 (* Values.v — attribute values as the library stores them, Python ==/hash as seen
    through sets, the XSD lexical parsers (prov.model: parse_xsd_types,
    parse_boolean, parse_xsd_datetime, int, float, Identifier) and the wire format. *)
-From Coq Require Import String Ascii List Bool Arith ZArith.
+From Coq Require Import String Ascii List Bool Arith ZArith DecimalString DecimalZ Decimal.
 From Prov Require Import Str Sexp Tables Nsm.
 Import ListNotations.
 Open Scope string_scope.
@@ -113,20 +113,29 @@ Fixpoint lstrip (s : string) : string :=
   | String c r => if is_space_ascii c then lstrip r else s
   | EmptyString => EmptyString
   end.
-Fixpoint rev_str (acc s : string) : string :=
-  match s with EmptyString => acc | String c r => rev_str (String c acc) r end.
-Definition strip (s : string) : string := rev_str "" (lstrip (rev_str "" (lstrip s))).
+Fixpoint rstrip (s : string) : string :=
+  match s with
+  | EmptyString => EmptyString
+  | String c r =>
+      match rstrip r with
+      | EmptyString => if is_space_ascii c then EmptyString else String c EmptyString
+      | r' => String c r'
+      end
+  end.
+Definition strip (s : string) : string := rstrip (lstrip s).
 
-(* int(s) for the plain decimal forms; None = ValueError *)
+Definition is_digit (c : ascii) : bool :=
+  match digit_val c with Some _ => true | None => false end.
+
+(* int(s) for the plain decimal forms (optional sign, surrounding ASCII white
+   space); None = ValueError.  Digit strings go through the standard library's
+   DecimalString so that the round trip with str() is a library lemma. *)
 Definition parse_int (s : string) : option Z :=
   match strip s with
-  | EmptyString => None
-  | String "-" r => match r with
-                    | EmptyString => None
-                    | _ => match digits_val 0%Z r with Some z => Some (- z)%Z | None => None end
-                    end
-  | String "+" r => match r with EmptyString => None | _ => digits_val 0%Z r end
-  | r => digits_val 0%Z r
+  | String "+" (String c r) =>
+      if is_digit c then option_map Z.of_int (NilZero.int_of_string (String c r)) else None
+  | String "+" EmptyString => None
+  | t => option_map Z.of_int (NilZero.int_of_string t)
   end.
 
 Definition lower_ascii (c : ascii) : ascii :=
